@@ -64,6 +64,9 @@ meta={"property":id,"label":label,"breaks":notes.strip(),"needs_to_manifest":"se
  "verified":{"repo_head":head,"suite_passes_with_change":True,"demo_passes_clean":True,"demo_fails_with_change":True,
  "check_cmd":f"./run.sh {id} {tier}","check_exit":int(rc),"violation_lines":int(nv),"first_violation":first,"check_summary":summary},
  "detected": int(rc)==1 and int(nv)>0}
+import os
+if os.environ.get("NO_STORE")=="1":   # dry run: report, leave the stored record alone
+    print("SEED %s-%s: detected=%s exit=%s violations=%s | %s"%(id,label,meta["detected"],rc,nv,first[:200])); sys.exit(0)
 try:
     old=json.load(open(dest+"/meta.json"))
     for k in ("detected_by_other_checks","note"):   # annotations made by hand survive a re-run
